@@ -6,7 +6,7 @@ ID = "C31"
 GEN = ["Colors"]
 THEOREMS = ["C31_rgb_range", "C31_hsl_alpha_range", "C31_hsl_sat_nonneg", "C31_hwb_alpha_range", "C31_hue_shape_partial",
             "C31_refuted_hue", "C31_named", "C31_eq_same_rgba", "C31_roundtrip_named_partial", "C31_roundtrip_gray_partial",
-            "C31_refuted_roundtrip", "C31_k6_is_grey"]
+            "C31_yellow_fixed"]
 COQ_HEADER = ("From Coq Require Import String List ZArith Bool.\n"
               "From RV Require Import Model.Color Run.C31.\nImport ListNotations.\nLocal Open Scope string_scope.")
 RUN_EXPR = "Run.C31.run"
@@ -52,7 +52,8 @@ def gen_cases(ctx, tier):
     # corpus
     for e in [("rgb", [300, -5, 128.5, 1]), ("hsl", [-1e-17, 50, 50, 1]), ("hsl", [-0.0, 50, 50, 1]), ("hsl", [0, 50, 150, 1]),
               ("hsl", [0, 150, 50, 1]), ("hwb", [400, 10, 10, 1]), ("hwb", [0, 150, 20, 1]), ("hwb", [0, 80, 80, 1]),
-              ("hwb", [0, -10, 20, 1]), ("hsl", [120, 50, 50, 0.5]), ("rgb", [127.5, 0, 0, 1]), ("hsl", [0, 100, 50, 1])]:
+              ("hwb", [0, -10, 20, 1]), ("hsl", [120, 50, 50, 0.5]), ("rgb", [127.5, 0, 0, 1]), ("hsl", [0, 100, 50, 1]),
+              ("rgb", [255, 255, 0, 1]), ("rgb", [128, 128, 0, 0.5]), ("rgb", [245, 245, 220, 1])]:
         cases.append({"k": e[0], "in": [float(x) for x in e[1]]})
     n = 450 if tier == "quick" else 9000
     for _ in range(n):
@@ -154,12 +155,12 @@ def coq_term(c, io):
 
 
 def judge(c, io, r):
-    corr, rgb, hue, sl, wb, k1, k2, k3, k4, k5, k6 = r
+    corr, rgb, hue, sl, wb, k1, k2, k3, k4, k5 = r
     eqs = [eq_answer(x) for x in io[1:5]]
     if io[0][0] in ("panic", "crash"):
         corr = 0
-    K1, K2, K3, K4, K5, K6 = ("known_C31_K1_hue_360", "known_C31_K2_hsl_unclamped", "known_C31_K3_hwb_unclamped",
-                              "known_C31_K4_rounded_rgb_channels", "known_C31_K5_hsl_exact_compare", "known_C31_K6_red_eq_green")
+    K1, K2, K3, K4, K5 = ("known_C31_K1_hue_360", "known_C31_K2_hsl_unclamped", "known_C31_K3_hwb_unclamped",
+                          "known_C31_K4_rounded_rgb_channels", "known_C31_K5_hsl_exact_compare")
     def first(*ks):
         for flag, name in ks:
             if flag:
@@ -170,11 +171,11 @@ def judge(c, io, r):
           ("saturation-lightness-range", sl == 1, first((k2, K2), (k3, K3))),
           ("whiteness-blackness-range", wb == 1, first((k3, K3), (k2, K2))),
           ("rebuild-rgb-equal", eqs[0] == 1, first((k4, K4))),
-          ("rebuild-hsl-equal", eqs[1] == 1, first((k6, K6), (k5, K5))),
-          ("rebuild-hwb-equal", eqs[2] == 1, first((k6, K6), (k5, K5))),
+          ("rebuild-hsl-equal", eqs[1] == 1, first((k5, K5))),
+          ("rebuild-hwb-equal", eqs[2] == 1, first((k5, K5))),
           ("same-rgba-equal", eqs[3] == 1, None)]
     return {"corr": corr == 1, "clauses": cl, "nontrivial": c["k"] != "named",
-            "tags": [c["k"]] + [f"K{i+1}" for i, k in enumerate([k1, k2, k3, k4, k5, k6]) if k],
+            "tags": [c["k"]] + [f"K{i+1}" for i, k in enumerate([k1, k2, k3, k4, k5]) if k],
             "show": expr_of(c), "detail": expr_of(c)}
 
 
@@ -193,6 +194,6 @@ LEVEL_TEXT = ("proof: range theorems for Rgba::new / Hsla::new / Hwba::new over 
               "of all named colours and greys by finite sweep over the table regenerated from rgba.rs; the model is tied to the code by "
               "bit-exact correspondence of all 16 channel values (own, rgba, hsla, hwba) on every generated constructor call")
 LEVEL_NOTE = ("trusted: Coq kernel+vm_compute, Flocq binary64, gen/gens/Colors.py, harness command `color`; hue range and general round trip "
-              "are partial; the statement is false on the pinned tree in six recorded classes (hue 360, unclamped hsl/hwb arguments, rounded "
-              "channel functions, exact hsl comparison, and rgb->hsl of colours with red = green > blue)")
+              "are partial; the statement is false on the pinned tree in five recorded classes (hue 360, unclamped hsl/hwb arguments, rounded "
+              "channel functions, exact hsl comparison); F33 (red = green > blue) is fixed upstream by e465284")
 TECHNIQUE = "Coq proof (case analysis on binary64 comparisons, finite sweeps over generated table) + translator + bit-exact differential correspondence"
